@@ -16,6 +16,7 @@ import ast
 
 from ..affine import Aff, div8
 from ..normalize import inline_helpers
+from ..roles import bits_fn, bits_name
 from ..bitwin import BitsV, BytesV, ToBytesV, all_paths, holds
 from ..core import Ctx, PropSpec, Unsupported
 from ..extract import where
@@ -29,9 +30,17 @@ def _eq(facts, a: Aff, b: Aff) -> bool:
     return holds(facts, a - b) and holds(facts, b - a)
 
 
+def _bitsfn(prog):
+    fi = bits_fn(prog)
+    if fi is None:
+        from ..program import AnchorMissing
+        raise AnchorMissing("no bit-window extractor (module function called by RawPacketData.read_as_int with the packet) found")
+    return fi
+
+
 def extract_bits_rule(ctx: Ctx):
     prog = ctx.prog
-    fi = inline_helpers(prog, prog.func(f"{PK}::_extract_bits"))
+    fi = inline_helpers(prog, _bitsfn(prog))
     if len(fi.params) != 3:
         ctx.unknown("R3.1", fi.key, f"expected (data, start_bit, nbits), got {fi.params}")
         return False
@@ -80,7 +89,7 @@ def _taken(p):
 
 def reader_rule(ctx: Ctx, eb_ok: bool):
     prog = ctx.prog
-    eb = inline_helpers(prog, prog.func(f"{PK}::_extract_bits"))
+    eb = inline_helpers(prog, _bitsfn(prog))
 
     def eb_summary(ev, call: ast.Call):
         """_extract_bits(d, s, n) = Bits(d, s, s+n) provided 0<=s, 0<=n, s+n <= 8*len(d)  (derived by R3.1)."""
@@ -103,7 +112,7 @@ def reader_rule(ctx: Ctx, eb_ok: bool):
         SELF, N = fi.params
         fold = lambda e: prog.fold_opt(e, PK, cls="RawPacketData")  # noqa: E731
         try:
-            paths = all_paths(fi.node, buffers={SELF: SELF}, ints=[N], fold=fold, summaries={"_extract_bits": eb_summary},
+            paths = all_paths(fi.node, buffers={SELF: SELF}, ints=[N], fold=fold, summaries={bits_name(prog): eb_summary},
                               self_name=SELF)
         except Unsupported as e:
             ctx.unknown("R3.2", fi.key, f"outside the bit-window vocabulary: {e}")
@@ -239,14 +248,14 @@ def witness_search(ctx: Ctx, thorough: bool):
         ctx.decide(bad is None, "R3.w", site, f"{len(cases) * len(PATTERNS)} (buffer, pos, width) cases agree", bad or "",
                    where=where(fi, fi.node))
     # _extract_bits directly (used by the header accessors and the framer with start/width not tied to a cursor)
-    fi = inline_helpers(prog, prog.func(f"{PK}::_extract_bits"))
+    fi = inline_helpers(prog, _bitsfn(prog))
     site = f"{fi.key}::witness-search"
     bad = None
     try:
         for pat in PATTERNS[:2]:
             for L, p, n in cases:
                 buf = (pat * 160)[:2049] if L == "wide" else pat[:L]
-                kind, got = h.outcome("_extract_bits(buf, p, n)", PK, buf=buf, p=p, n=n)
+                kind, got = h.outcome(f"{bits_name(prog)}(buf, p, n)", fi.relpath, buf=buf, p=p, n=n)
                 bits = _bits(buf)[p:p + n]
                 want = int(bits, 2) if bits else 0
                 if kind != "ok" or got != want:
